@@ -35,7 +35,11 @@ class TocRenderer:
             "<b>%d</b>" % 9999, pdfstyles.text_style(mode="toc_article",
                                                      text_align="right")
         )
-        width, _ = paragraph.wrap(0, pdfstyles.PRINT_HEIGHT)
+        # the width the widest page number needs (wrapping at width 0 yields 0 with
+        # current reportlab, which made the column - and the whole TOC - unrenderable),
+        # plus the cell's left and right padding
+        paragraph.wrap(pdfstyles.PRINT_WIDTH, pdfstyles.PRINT_HEIGHT)
+        width = paragraph.minWidth() + 12
         # subtracting 30pt below is *probably* necessary b/c
         # of the table margins
         return [pdfstyles.PRINT_WIDTH - width - 30, width]
